@@ -12,6 +12,12 @@ TRUSTED = [
     "hand model Model/Xtrig.v of XtriggerManager.call_xtriggers_async/callback/housekeep "
     "(signatures computed by the real get_xtrig_ctx().get_signature() and numbered by the harness)",
     "stub proc_pool / broadcast_mgr / workflow_db_mgr / data_store_mgr; fake task proxies; virtual clock",
+    "hand model Model/XtrigLoop.v of the xtrigger section of Scheduler._main_loop (which tasks go to "
+    "call_xtriggers_async, that housekeep gets every pooled task, do_housekeeping); stream xtloop: the shared in-process "
+    "scheduler driver vp/sched/driver.py (fake process pool) plus this module's wrappers around Scheduler._main_loop, "
+    "SubProcPool.process, XtriggerManager.call_xtriggers_async/callback/housekeep, scen.render_flow (adds the "
+    "[[xtriggers]] section and `@x => t` lines) and a virtual clock in xtrigger_mgr; xtrigger results are scripted in "
+    "the callback wrapper",
 ]
 ASSUMES = [
     "callbacks arrive only for submitted (active) signatures, once per submission (C42)",
@@ -399,7 +405,421 @@ class XtrigStream(Stream):
             yield {**c, "tasks": c["tasks"][:-1], "ops": ops2}
 
 
-STREAMS = [XtrigStream()]
+
+# ===========================================================================
+# scheduler level: the xtrigger section of Scheduler._main_loop on the real
+# Scheduler (shared in-process driver vp/sched/driver.py, wrapped from outside)
+# ===========================================================================
+import json
+import random
+
+from vp.sched import scen
+from vp.sched.stream import SchedStream
+
+_XT = {"schd": None, "tick": -1, "step": 1, "plan": {}, "ncalls": {}, "xt": None}
+_XT_INSTALLED = [False]
+KEEP_XT = {"xt_pass", "xt_call", "xt_cb", "xt_hk", "xt_cb_error", "tick", "tick_end", "op", "op_rejected"}
+
+
+def _xt_render(scn, o_render):
+    """flow.cylc of a scenario with its [[xtriggers]] section and `@label => task` lines"""
+    xt = scn.get("xt")
+    if not xt:
+        return o_render(scn)
+    sec = ["    [[xtriggers]]"]
+    for lb in xt["labels"]:
+        args = {"const": f'"{lb["name"]}"', "point": f'"{lb["name"]}", "%(point)s"',
+                "name": f'"{lb["name"]}", "%(name)s"'}[lb["arg"]]
+        sec.append(f'        {lb["name"]} = echo({args}, succeed=True):PT{lb["intvl"]}S')
+    txt = o_render(scn, extra_sched="\n".join(sec))
+    out, si, inside = [], -1, False
+    for ln in txt.split("\n"):
+        st = ln.strip()
+        if not inside and st.endswith('= """'):
+            inside, si = True, si + 1
+        elif inside and st == '"""':
+            members = [l["rhs"] for l in scn["sections"][si]["lines"] if l["lhs"] is None]
+            for t, labs in xt["deps"].items():
+                if t in members and labs:
+                    out.append("            " + " & ".join("@" + x for x in labs) + " => " + t)
+            inside = False
+        out.append(ln)
+    return "\n".join(out)
+
+
+def _xt_install():
+    if _XT_INSTALLED[0]:
+        return
+    _XT_INSTALLED[0] = True
+    from vp.sched import driver as D
+    import cylc.flow.xtrigger_mgr as xm
+    from cylc.flow.scheduler import Scheduler
+    from cylc.flow.subprocpool import SubProcPool
+
+    xm.time = lambda: _XT["tick"] * _XT["step"]
+
+    o_render = scen.render_flow
+    scen.render_flow = lambda scn, *a, **k: _xt_render(scn, o_render) if not a and not k else o_render(scn, *a, **k)
+
+    def view(t):
+        mgr = _XT["schd"].xtrigger_mgr
+        labs = []
+        for k, v in t.state.xtriggers.items():
+            c = mgr.get_xtrig_ctx(t, k)
+            iv = c.intvl
+            labs.append([k, bool(v), c.get_signature(), int(iv) if float(iv) == int(iv) else iv])
+        return [D.tid(t), t.state.status, bool(t.state.is_queued), bool(t.state.is_runahead), bool(t.state.is_held),
+                labs, id(t)]
+
+    def mgr_view(mgr):
+        return {"active": list(mgr.active), "sat": sorted(mgr.sat_xtrig),
+                "tnext": sorted([k, int(v) if float(v) == int(v) else v] for k, v in mgr.t_next_call.items()),
+                "due": bool(mgr.do_housekeeping)}
+
+    o_loop = Scheduler._main_loop
+
+    async def n_loop(self):
+        _XT["schd"] = self
+        _XT["tick"] += 1
+        return await o_loop(self)
+    Scheduler._main_loop = n_loop
+
+    o_proc = SubProcPool.process
+
+    def n_proc(self):
+        r = o_proc(self)
+        schd = _XT["schd"]
+        if schd is not None and schd.proc_pool is self and _XT["xt"]:
+            mgr = schd.xtrigger_mgr
+            D.ev("xt_pass", now=xm.time(), pool=[view(t) for t in schd.pool.get_tasks()], mgr=mgr_view(mgr))
+        return r
+    SubProcPool.process = n_proc
+
+    o_call = xm.XtriggerManager.call_xtriggers_async
+
+    def n_call(self, itask):
+        n0 = len(self.active)
+        r = o_call(self, itask)
+        D.ev("xt_call", id=D.tid(itask), now=xm.time(), submitted=list(self.active[n0:]), after=view(itask), mgr=mgr_view(self))
+        return r
+    xm.XtriggerManager.call_xtriggers_async = n_call
+
+    o_cb = xm.XtriggerManager.callback
+
+    def n_cb(self, ctx):
+        sig = ctx.get_signature()
+        n = _XT["ncalls"][sig] = _XT["ncalls"].get(sig, 0) + 1
+        k = _XT["plan"].get(ctx.label, _XT["plan"].get("*", 1))
+        ok = bool(k) and n >= k
+        ctx.ret_code = 0
+        ctx.out = json.dumps([True, {"n": str(n)}]) if ok else json.dumps([False, {}])
+        try:
+            r = o_cb(self, ctx)
+        except Exception as exc:
+            D.ev("xt_cb_error", sig=sig, exc=f"{type(exc).__name__}: {exc}")
+            raise
+        D.ev("xt_cb", sig=sig, ok=ok, now=xm.time(), mgr=mgr_view(self))
+        return r
+    xm.XtriggerManager.callback = n_cb
+
+    o_hk = xm.XtriggerManager.housekeep
+
+    def n_hk(self, itasks):
+        itasks = list(itasks)
+        schd = _XT["schd"]
+        before = mgr_view(self)
+        r = o_hk(self, itasks)
+        D.ev("xt_hk", passed=[D.tid(t) for t in itasks], pool=[view(t) for t in schd.pool.get_tasks()],
+             before=before, mgr=mgr_view(self))
+        return r
+    xm.XtriggerManager.housekeep = n_hk
+
+
+
+def _xt_passes(trace):
+    """Group the trace into steps: ("cb", event) and ("pass", pass_event, [call events], hk_event|None)."""
+    out = []
+    cur = None
+    for e in trace:
+        k = e["e"]
+        if k == "xt_pass":
+            cur = ["pass", e, [], None]
+            out.append(cur)
+        elif k == "xt_cb":
+            cur = None
+            out.append(["cb", e])
+        elif k == "xt_call" and cur is not None:
+            cur[2].append(e)
+        elif k == "xt_hk" and cur is not None:
+            cur[3] = e
+        elif k in ("tick", "tick_end"):
+            cur = None
+    return out
+
+
+def _elig(v):
+    return v[1] == "waiting" and not v[2] and not v[3]
+
+
+class XtLoopStream(SchedStream):
+    """The xtrigger section of the real Scheduler._main_loop on generated workflows with `@x => task` xtriggers."""
+    coq_import = "From Cylc Require Import Model.Xtrig Model.XtrigLoop."
+    check_fn = "XtrigLoop.check_case"
+    show_fn = "XtrigLoop.model_out"
+    shard_size = 12
+
+    def __init__(self, n_quick=18, n_thorough=400):
+        super().__init__("C33", name="xtloop", feat={"disorder": False, "hold": True, "queues": True, "max_tasks": 3,
+                                                      "max_fcp": 5}, n_quick=n_quick, n_thorough=n_thorough)
+        self.cache_key = "sched-xtloop:v1"
+        self.rule = ("generated integer-cycling workflows (1-3 tasks, 3-5 cycles, runahead limit P0-P2, optional queues with "
+                     "limits, hold/release commands) in which 1-2 tasks depend on 1-2 xtriggers `@x => t` (echo-like functions "
+                     "whose signature is constant / per cycle point / per task name, intervals 0-10 s), run on the real "
+                     "Scheduler in-process under a virtual clock (1-3 s per main-loop iteration); the xtrigger function's "
+                     "result is scripted (succeeds at its 1st-3rd call); every main-loop pass (callbacks delivered, tasks "
+                     "handed to call_xtriggers_async, tasks handed to housekeep, manager state, task flags) is compared with "
+                     "Model/XtrigLoop.v; non-trivial = a housekeeping ran while a pooled task that was NOT checked in that "
+                     "pass (runahead-limited / queued / held / not waiting) still needed a succeeded signature")
+
+    def corpus(self):
+        base = {"icp": 1, "fcp": 5, "tasks": ["foo"], "sections": [{"rec": "P1", "lines": [{"lhs": None, "rhs": "foo"}]}],
+                "customs": {}, "opt": [["foo", "succeeded", False]], "runahead": 1, "queues": {}, "seed": 3,
+                "fail_rate": 0.0, "custom_rate": 1.0, "disorder": 0.0, "max_ticks": 40, "ops": [],
+                "xt": {"labels": [{"name": "poll", "arg": "const", "intvl": 10}], "deps": {"foo": ["poll"]},
+                       "plan": {"poll": 1}, "step": 1}}
+        # seeded/C33/demo2.py: P1 = @poll => foo, cycles 1..5, runahead P1, succeeds at the first call: exactly one call
+        c1 = json.loads(json.dumps(base))
+        # succeeds at the third call, interval 3, 2 s per iteration; a held instance keeps needing it
+        c2 = json.loads(json.dumps(base))
+        c2["xt"] = {"labels": [{"name": "poll", "arg": "const", "intvl": 3}], "deps": {"foo": ["poll"]},
+                    "plan": {"poll": 3}, "step": 2}
+        c2["runahead"] = 2
+        c2["ops"] = [{"tick": 0, "cmd": "hold", "args": {"tasks": ["2/foo"]}},
+                     {"tick": 14, "cmd": "release", "args": {"tasks": ["2/foo"]}}]
+        return [c1, c2]
+
+    def _cases(self, r, n):
+        out = []
+        while len(out) < n:
+            s = scen.gen_scenario(r, self.feat)
+            if s["fcp"] < 3:
+                continue
+            s.pop("baseline", None)
+            s["runahead"] = r.choice([0, 1, 1, 2])
+            s["max_ticks"] = 70
+            nl = r.randint(1, 2)
+            labels = [{"name": f"x{i}", "arg": r.choice(["const", "const", "point", "name"]),
+                       "intvl": r.choice([0, 2, 3, 5, 10])} for i in range(nl)]
+            deps = {}
+            for t in r.sample(s["tasks"], r.randint(1, min(2, len(s["tasks"])))):
+                deps[t] = sorted(r.sample([lb["name"] for lb in labels], r.randint(1, nl)))
+            s["xt"] = {"labels": labels, "deps": deps, "plan": {lb["name"]: r.choice([1, 1, 2, 3]) for lb in labels},
+                       "step": r.choice([1, 1, 2, 3])}
+            out.append(s)
+        return out
+
+    def gen(self, rng, tier):
+        return self._cases(random.Random(rng.randrange(1 << 30)), self.n_quick if tier == "quick" else self.n_thorough)
+
+    def search(self, rng, tier):
+        return self._cases(random.Random(rng.randrange(1 << 30)), 3 * self.n_quick)
+
+    def impl(self, cases):
+        import os
+        from pathlib import Path
+        from vp.sched import driver
+        if _xt_install not in driver.EXTRA_PATCHES:
+            driver.EXTRA_PATCHES.append(_xt_install)
+        home = Path(os.environ["HOME"])
+        out = []
+        for c in cases:
+            for _attempt in range(3):
+                _XT.update({"schd": None, "tick": -1, "step": c["xt"]["step"], "plan": c["xt"]["plan"], "ncalls": {},
+                            "xt": c["xt"]})
+                r = driver.run_many([c], home)[0]
+                if not r["meta"].get("error"):
+                    break
+            if r["meta"].get("error") and "BrokenBarrierError" in str(r["meta"]["error"]):
+                r["meta"]["flaky"] = True
+            r["trace"] = [({"e": "tick_end", "n": e["n"]} if e["e"] == "tick_end" else e)
+                          for e in r["trace"] if e["e"] in KEEP_XT]
+            out.append(r)
+        return out
+
+    # ------------------------------------------------------------ Coq case
+    def coq_case(self, c, r):
+        if r["meta"].get("error") or r["meta"].get("flaky"):
+            return None
+        tids, sigs, labs, objs = {}, {}, {}, {}
+        tn = lambda i: tids.setdefault(tuple(i), len(tids))        # noqa
+        sn = lambda x: sigs.setdefault(x, len(sigs))               # noqa
+        ln = lambda x: labs.setdefault(x, len(labs))               # noqa
+        items = []
+
+        def add_new(views):
+            for v in views:
+                if objs.get(tuple(v[0])) != v[6]:
+                    objs[tuple(v[0])] = v[6]
+                    if any(not isinstance(l[3], int) for l in v[5]):
+                        raise ValueError("non-integer interval")
+                    es = q.clist(q.crecord(e_label=q.cnat(ln(l[0])), e_sig=q.cnat(sn(l[2])), e_clock="None",
+                                           e_intvl=q.cz(l[3]), e_sat="false") for l in v[5])
+                    t = q.crecord(x_id=q.cnat(tn(v[0])), x_entries=es)
+                    items.append(q.cpair(f"(LAdd {t})", "None"))
+
+        def obs(called, submitted, hk, mgr, flags):
+            if any(not isinstance(v, int) for _k, v in mgr["tnext"]):
+                raise ValueError("non-integer time")
+            return "(Some " + q.crecord(
+                lo_called=q.clist(q.cnat(tn(i)) for i in called),
+                lo_submitted=q.clist(q.cnat(sn(x)) for x in submitted),
+                lo_hk=q.copt(hk, lambda l: q.clist(q.cnat(tn(i)) for i in l)),
+                lo_active=q.clist(q.cnat(sn(x)) for x in mgr["active"]),
+                lo_sat=q.clist(q.cnat(x) for x in sorted(sn(x) for x in mgr["sat"])),
+                lo_tnext=q.clist(q.cpair(q.cnat(k), q.cz(v)) for k, v in sorted((sn(k), v) for k, v in mgr["tnext"])),
+                lo_due=q.cbool(mgr["due"]),
+                lo_flags=q.clist(q.cpair(q.cnat(tn(i)), q.clist(q.cpair(q.cnat(ln(l[0])), q.cbool(l[1])) for l in fl))
+                                 for i, fl in flags)) + ")"
+        try:
+            for st in _xt_passes(r["trace"]):
+                if st[0] == "cb":
+                    e = st[1]
+                    items.append(q.cpair(f"(LCallback {q.cnat(sn(e['sig']))} {q.cbool(e['ok'])})",
+                                         obs([], [], None, e["mgr"], [])))
+                    continue
+                _k, p, calls, hk = st
+                add_new(p["pool"])
+                if hk is not None:
+                    add_new(hk["pool"])
+                pool = q.clist(q.cpair(q.cnat(tn(v[0])), q.cbool(_elig(v))) for v in p["pool"])
+                pool_hk = [v[0] for v in (hk["pool"] if hk is not None else p["pool"])]
+                latest = {tuple(v[0]): v[5] for v in p["pool"]}
+                for e in calls:
+                    latest[tuple(e["id"])] = e["after"][5]
+                if hk is not None:
+                    for v in hk["pool"]:
+                        latest[tuple(v[0])] = v[5]
+                mgr = hk["mgr"] if hk is not None else calls[-1]["mgr"] if calls else p["mgr"]
+                if hk is None:
+                    mgr = dict(mgr)
+                items.append(q.cpair(
+                    f"(LPass {q.cz(p['now'])} {pool} {q.clist(q.cnat(tn(i)) for i in pool_hk)})",
+                    obs([e["id"] for e in calls], [x for e in calls for x in e["submitted"]],
+                        None if hk is None else hk["passed"], mgr, sorted(latest.items()))))
+        except ValueError:
+            return None
+        if not items:
+            return None
+        return q.clist(items)
+
+    # ------------------------------------------------------------ oracle
+    def oracle(self, c, r):
+        if r["meta"].get("flaky"):
+            return None
+        if r["meta"].get("error"):
+            return "error: scheduler run raised " + r["meta"]["error"]
+        for e in r["trace"]:
+            if e["e"] == "xt_cb_error":
+                return f"error: xtrigger callback raised {e['exc']}"
+        in_progress = set()
+        last = {}            # sig -> [time, interval, forgotten since?]
+        succeeded = set()    # succeeded and not (legitimately) forgotten since
+        ncalls = {}
+        known = None
+        for st in _xt_passes(r["trace"]):
+            if st[0] == "cb":
+                e = st[1]
+                in_progress.discard(e["sig"])
+                if e["ok"]:
+                    succeeded.add(e["sig"])
+                    if e["sig"] not in e["mgr"]["sat"]:
+                        return f"success of {e['sig']} not recorded"
+                continue
+            _k, p, calls, hk = st
+            pool = {tuple(v[0]): v for v in p["pool"]}
+            exp_called = [v[0] for v in p["pool"] if _elig(v) and any(not l[1] for l in v[5])]
+            if [e["id"] for e in calls] != exp_called:
+                return (f"pass-discipline: t={p['now']}: call_xtriggers_async was called for {[e['id'] for e in calls]}, "
+                        f"the waiting, non-queued, non-runahead tasks with unsatisfied xtriggers are {exp_called}")
+            sat = set(p["mgr"]["sat"])
+            for e in calls:
+                v = pool[tuple(e["id"])]
+                now = e["now"]
+                for x in e["submitted"]:
+                    ncalls[x] = ncalls.get(x, 0) + 1
+                    if x in in_progress:
+                        return f"two-calls-in-progress: t={now}: {x} called while a call is still in progress"
+                    if x in succeeded:
+                        need = [f"{w[0][0]}/{w[0][1]}" for w in p["pool"] if any(l[2] == x and not l[1] for l in w[5])]
+                        return (f"called-after-success: t={now}: {x} called again (call no. {ncalls[x]}) although it had "
+                                f"succeeded and pooled tasks {need} needed it all along")
+                    iv = [l[3] for l in v[5] if l[2] == x and not l[1]]
+                    if x in last and now < last[x][0] + last[x][1]:
+                        if not last[x][2]:
+                            return (f"interval: t={now}: {x} called {now - last[x][0]}s after the previous call "
+                                    f"(interval {last[x][1]}s)")
+                        known = known or (f"interval-after-forget: t={now}: {x} called {now - last[x][0]}s after the previous "
+                                          f"call (interval {last[x][1]}s); in between it succeeded and housekeep forgot it")
+                    last[x] = [now, iv[0] if iv else 0, False]
+                    in_progress.add(x)
+                for (lab, was, sg, _iv), (lab2, now_sat, _s2, _i2) in zip(v[5], e["after"][5]):
+                    if not was and sg in sat and not now_sat:
+                        return f"dependent-not-satisfied: {e['id']} label {lab}: {sg} has succeeded"
+                    if not was and now_sat and sg not in e["mgr"]["sat"]:
+                        return f"{e['id']} label {lab} satisfied but {sg} has not succeeded"
+                sat = set(e["mgr"]["sat"])
+            if hk is not None:
+                pooled = {tuple(v[0]) for v in hk["pool"]}
+                passed = {tuple(i) for i in hk["passed"]}
+                gone = set(hk["before"]["sat"]) - set(hk["mgr"]["sat"])
+                for x in sorted(gone):
+                    need = [f"{v[0][0]}/{v[0][1]}" for v in hk["pool"] if any(l[2] == x and not l[1] for l in v[5])]
+                    if need:
+                        return (f"forgot-needed: t={p['now']}: housekeeping forgot the succeeded {x} although pooled task(s) "
+                                f"{need} still need it (housekeep was given {sorted(passed)} of the pool {sorted(pooled)})")
+                    succeeded.discard(x)
+                    if x in last:
+                        last[x][2] = True
+                if passed != pooled:
+                    return (f"pass-discipline: t={p['now']}: housekeep was given {sorted(passed)}, the pool holds "
+                            f"{sorted(pooled)}")
+            elif (p["mgr"]["due"] or any(e["mgr"]["due"] for e in calls)):
+                return f"pass-discipline: t={p['now']}: housekeeping was due but did not run"
+        return known
+
+    def classify(self, c, r, failure):
+        if failure.startswith("interval-after-forget:"):
+            return SIG_FORGET
+        return "xtloop:" + failure.split(":")[0].split(" ")[0]
+
+    def key(self, c, r):
+        if not isinstance(r, dict) or "trace" not in r:
+            return None
+        for st in _xt_passes(r["trace"]):
+            if st[0] == "pass" and st[3] is not None:
+                hk = st[3]
+                called = {tuple(e["id"]) for e in st[2]}
+                for v in hk["pool"]:
+                    if tuple(v[0]) not in called and any(l[2] in hk["before"]["sat"] and not l[1] for l in v[5]):
+                        return json.dumps([c["sections"], c["seed"], c["xt"], c["runahead"], c["ops"]], sort_keys=True)
+        return None
+
+    def shrink(self, c):
+        ops = c.get("ops", [])
+        for i in range(len(ops)):
+            c2 = json.loads(json.dumps(c))
+            del c2["ops"][i]
+            yield c2
+        if c.get("queues"):
+            c2 = json.loads(json.dumps(c))
+            c2["queues"] = {}
+            yield c2
+        for c2 in super().shrink(c):
+            if set(c2["xt"]["deps"]) <= {l["rhs"] for sec in c2["sections"] for l in sec["lines"]}:
+                yield c2
+
+
+STREAMS = [XtrigStream(), XtLoopStream()]
 
 META = {
     "level_text": (
@@ -410,7 +830,11 @@ META = {
         "submission of that signature until housekeep forgets it, which happens only when no task handed to housekeep has "
         "it unsatisfied; a call on a task satisfies every label whose signature has succeeded, and a signature some task "
         "still needs survives housekeeping. The model is tied to the real XtriggerManager by differential histories "
-        "compared in Coq (stub pool, virtual clock)."),
+        "compared in Coq (stub pool, virtual clock). Over Model/XtrigLoop.v (the xtrigger section of Scheduler._main_loop, "
+        "tied to the real Scheduler by the xtloop stream): a succeeded signature that SOME pooled task, whatever its "
+        "runahead/queued/held flags, still has unsatisfied survives every pass and is not called in it; it disappears only "
+        "in a pass where no pooled task needs it; the variant that hands housekeep only the tasks checked in the pass is "
+        "refuted; sections 1-3 hold for every loop history."),
     "level_note": (
         "Hand model; stubs for proc_pool/broadcast/DB/data store; signatures numbered. The interval guarantee does not "
         "span a housekeeping-forget (after success, when no task needs the signature, housekeep deletes its t_next_call "
